@@ -641,7 +641,10 @@ func (this *Writer) processBlock() error {
 		// Limit the number of jobs if there are fewer blocks that this.jobs
 		// It allows more jobs per task and reduces memory usage.
 		if this.nbInputBlocks > 0 {
-			nbTasks = min(nbTasks, this.nbInputBlocks)
+			// The size hint is only advisory: never use fewer tasks than
+			// there are buffered blocks, otherwise data would be left behind.
+			nbBlocks := (this.available + this.blockSize - 1) / this.blockSize
+			nbTasks = min(nbTasks, max(this.nbInputBlocks, nbBlocks))
 		}
 
 		jobsPerTask, _ = internal.ComputeJobsPerTask(make([]uint, nbTasks), uint(this.jobs), uint(nbTasks))
